@@ -97,6 +97,9 @@ var SubSelections = []struct {
 	{"{ ...F }", func(id int) string { return `{"tag":"t` + strconv.Itoa(id) + `"}` }, "fragment F on Event { tag }"},
 	{"{ ... on Event { id } ... { tag } }", func(id int) string { return `{"id":` + strconv.Itoa(id) + `,"tag":"t` + strconv.Itoa(id) + `"}` }, ""},
 	{"{ id @skip(if: true) msg @include(if: true) }", func(id int) string { return `{"msg":"m` + strconv.Itoa(id) + `"}` }, ""},
+	// directives on the spread (not on the fragment definition) decide
+	{"{ id ...W @skip(if: true) }", func(id int) string { return `{"id":` + strconv.Itoa(id) + `}` }, "fragment W on Event { msg tag }"},
+	{"{ ...H @include(if: false) tag ...G @include(if: true) }", func(id int) string { return `{"id":` + strconv.Itoa(id) + `,"tag":"t` + strconv.Itoa(id) + `"}` }, "fragment H on Event { msg }\nfragment G on Event { id }"},
 }
 
 // SubUnionSelections are the selections of subscribers of the union-typed
@@ -292,6 +295,8 @@ type SimSub struct {
 	// TimeoutErr: failing deliveries return an error shaped like a network
 	// timeout (Timeout() == true).
 	TimeoutErr bool
+	// Marks: the subscriber writes a receipt into the message it is sent.
+	Marks bool
 	// EmptyGroupErr: failing deliveries return ggql.Errors{} - not nil, but
 	// without members.
 	EmptyGroupErr bool
@@ -373,6 +378,12 @@ func (s *SimSub) Send(value interface{}) error {
 	// the delivery takes time: the end of the call is an event of its own, so
 	// that a second call into the same subscriber before it shows as an overlap
 	s.kept, s.keptCanon = value, CanonLite(value)
+	if m, ok := value.(map[string]interface{}); ok && s.Marks {
+		// the message is the subscriber's own: it may write into it (a sequence
+		// number, a receipt); nobody else may ever see that
+		m["_receipt"] = s.ID
+		s.keptCanon = CanonLite(value)
+	}
 	s.env.Event("SendEnd", strconv.Itoa(s.ID))
 	if fail {
 		if s.TimeoutErr {
